@@ -11,9 +11,11 @@
    equations and constants are stated in their NUMERIC reading (value in the variable's own unit).
 
    Proved in full: C01_rep_chain(_invariant), C01_conversion_equation_SI, C01_flatten_sound.
-   Not proved (tested by tools/props/c01.py only): the converse C01_flatten_complete (every solution of the flat
-   system extends to the document), the composition with C05 (C01_numeric_after_fix) and C01_constants as an
-   equality of sets (one inclusion, tc_origin, is proved and used). *)
+   Proved in part: C01_flatten_complete_partial (every solution of the flat system gives a solution of the document
+   when each variable takes the value of its representative; missing: that this valuation agrees with the flat
+   solution on the targets of unit-changing connections, which follows from the conversion equations by induction
+   along the chain and is not proved).
+   Not proved (tested by tools/props/c01.py only): the composition with C05 (C01_numeric_after_fix). *)
 From Coq Require Import List ZArith QArith Bool Reals Qreals.
 From Verif Require Import Sexp UnitAlg UnitAlgP Expr Eval Loader LoaderP C17P C01P.
 Import ListNotations.
@@ -52,3 +54,18 @@ Theorem C01_flatten_sound : forall fsem psem csem nu de d f,
   load d = OK f -> doc_sat fsem psem csem nu de d -> flat_sat fsem psem csem nu de d f.
 Proof. exact flatten_sound. Qed.
 Print Assumptions C01_flatten_sound.
+
+(* FULL STRENGTH (C01_flatten_complete): flat_sat f nu de -> doc_sat d (extend nu) (extend de), where extend changes
+   nu only on the targets that were substituted away (conversion factor 1).
+   Proved: with every variable given the SI value of its representative (the end of its mapping chain; rep_of is the
+   identity on every variable that is not the target of a connection) the document is satisfied: all component
+   equations, equal quantities across every connection, all constants.  init_no_in is the schema's guarantee that a
+   variable with an initial value has no `in` interface (cellml_1_0.rng, rule 3.4.3.8).
+   Missing for full strength: nu t = nu (rep_of m t) for the targets t of unit-changing connections. *)
+Theorem C01_flatten_complete_partial : forall fsem psem csem d f nu de, load d = OK f -> init_no_in f ->
+  flat_sat fsem psem csem nu de d f ->
+  let m := rev (f_map f) in
+  doc_sat fsem psem csem (fun i => nu (rep_of m i)) (fun i j => de (rep_of m i) (rep_of m j)) d /\
+  (forall i, lookup m i = None -> rep_of m i = i).
+Proof. exact flatten_complete_partial. Qed.
+Print Assumptions C01_flatten_complete_partial.
